@@ -78,8 +78,8 @@ theorem update_name (r : Res) (o : Obs) : (update r o).1.name = r.name := by
   all_goals rfl
 
 theorem update_ty (r : Res) (o : Obs) : (update r o).1.ty = r.ty := by
-  unfold update; cases r.ty <;> simp only [] <;> repeat' split
-  all_goals rfl
+  unfold update; cases hty : r.ty <;> simp only [] <;> repeat' split
+  all_goals first | rfl | exact hty
 
 theorem update_acc (r : Res) (o : Obs) : (update r o).1.acc = r.acc := by
   unfold update; cases r.ty <;> simp only [] <;> repeat' split
@@ -90,9 +90,23 @@ theorem update_counts_length (r : Res) (o : Obs) :
   unfold update; cases r.ty <;> simp only [] <;> repeat' split
   all_goals first | rfl | simp [incr_length]
 
-theorem update_n (r : Res) (o : Obs) : (update r o).1.n = r.n + 1 := by
-  unfold update; cases r.ty <;> simp only [] <;> repeat' split
-  all_goals rfl
+/-- **a rejected `update` changes nothing** -/
+theorem update_err_unchanged (r : Res) (o : Obs) (h : (update r o).2 ≠ none) : (update r o).1 = r := by
+  unfold update at h ⊢
+  cases hty : r.ty <;> simp only [hty] at h ⊢
+  · exact absurd rfl h
+  · cases hot : o.t with
+    | none => rfl
+    | some t =>
+      by_cases h0 : t = 0
+      · simp [h0]
+      · simp [hot, h0] at h
+  · exact absurd rfl h
+  · by_cases hd : o.v.den = 1
+    · cases hi : pyIndex r.counts.length o.v.num with
+      | none => simp [hd]
+      | some i => simp [hd, hi] at h
+    · simp [hd]
 
 theorem update_counts_of_ne_choice (r : Res) (o : Obs) (h : r.ty ≠ .choice) :
     (update r o).1.counts = r.counts := by
@@ -131,11 +145,6 @@ theorem shaped_foldUpd {r : Res} (xs : List Obs) (h : Shaped r) : Shaped (foldUp
   | nil => exact h
   | cons o xs ih => exact ih (shaped_update o h)
 
-theorem foldUpd_n (r : Res) (xs : List Obs) : (foldUpd r xs).n = r.n + xs.length := by
-  induction xs generalizing r with
-  | nil => rfl
-  | cons o xs ih => rw [foldUpd_cons, ih, update_n, List.length_cons]; omega
-
 /-! ### `fresh` -/
 
 theorem shaped_fresh (nm : String) (ty : Ty) (acc : Bool) (k : Nat) : Shaped (fresh nm ty acc k) := by
@@ -168,6 +177,7 @@ theorem fresh_of_compat {nm : String} {ty : Ty} {acc : Bool} {k : Nat} {a : Res}
 theorem merge_okL {a b : Res} (h : CompatL a b) : merge a b = (mergeCore a b, none) := by
   have hg : mergeGuard a b = none := by
     have := h.acc
+    have hl := h.len
     cases ha : a.acc <;> simp_all [mergeGuard, h.ty, h.name]
   unfold merge mergeCore
   rw [hg]
@@ -296,6 +306,16 @@ theorem update_ok {r : Res} {o : Obs} (h : validObs r o) : (update r o).2 = none
     obtain ⟨i, hi⟩ := Option.isSome_iff_exists.mp hi
     simp [hd, hi]
 
+theorem update_n_ok {r : Res} {o : Obs} (h : validObs r o) : (update r o).1.n = r.n + 1 := by
+  unfold validObs at h
+  unfold update
+  cases hty : r.ty <;> simp only [hty] at h ⊢
+  · obtain ⟨t, ht, h0⟩ := h
+    simp [ht, h0]
+  · obtain ⟨hd, hi⟩ := h
+    obtain ⟨i, hi⟩ := Option.isSome_iff_exists.mp hi
+    simp [hd, hi]
+
 theorem update_err_of_invalid {r : Res} {o : Obs} (h : ¬ validObs r o) : (update r o).2 ≠ none := by
   unfold validObs at h
   unfold update
@@ -328,6 +348,15 @@ theorem foldUpdM_ok {r : Res} {xs : List Obs} (h : ∀ o ∈ xs, validObs r o) :
     simp only at h1 h2
     subst h1
     exact ih h2
+
+theorem foldUpd_n {r : Res} {xs : List Obs} (h : ∀ o ∈ xs, validObs r o) :
+    (foldUpd r xs).n = r.n + xs.length := by
+  induction xs generalizing r with
+  | nil => rfl
+  | cons o xs ih =>
+    have h2 : ∀ o' ∈ xs, validObs (update r o).1 o' := fun o' ho' =>
+      (validObs_congr o' (update_ty r o) (update_counts_length r o)).mpr (h o' (by simp [ho']))
+    rw [foldUpd_cons, ih h2, update_n_ok (h o (by simp)), List.length_cons]; omega
 
 /-! ### associativity, any grouping -/
 
